@@ -700,6 +700,12 @@ func init() {
 			}
 			return Tuple{t, e.st.False()}
 		},
+		"vZsame": func(e *Engine, fr *Frame, s *State, f *ssa.Function, args []Value, pos string) Value {
+			// syntactic identity of two integer terms (a concrete answer: used for stamps, never for arithmetic facts)
+			a, ok1 := args[0].(*Term)
+			b, ok2 := args[1].(*Term)
+			return e.st.Bool(ok1 && ok2 && a == b)
+		},
 		"vZ.IsSym": func(e *Engine, fr *Frame, s *State, f *ssa.Function, args []Value, pos string) Value {
 			return e.st.Bool(args[0].(*Term).Op == OSym)
 		},
